@@ -2966,6 +2966,8 @@ func (r *Resolver) lookupNSAddrV6(ctx context.Context, qname string, cd bool) (a
 
 func (r *Resolver) lookupV4Nss(ctx context.Context, q dns.Question, authservers *authority.Servers, key uint64, parentDS []dns.RR, foundv4, hosts hostSet, cd bool, cutDeadline time.Time) error {
 	list := sortHosts(hosts, q.Name)
+	// lastAttemptLimit remembers a request-local refusal (RFC 9520 attempt
+	// limit, load shedding) met while looking up a name server address.
 	var lastAttemptLimit error
 
 	for _, name := range list {
@@ -3019,10 +3021,14 @@ func (r *Resolver) lookupV4Nss(ctx context.Context, q dns.Question, authservers 
 				errors.Is(err, context.DeadlineExceeded) {
 				return err
 			}
-			if errors.Is(err, middleware.ErrResolutionAttemptLimit) {
+			if errors.Is(err, middleware.ErrResolutionAttemptLimit) ||
+				errors.Is(err, middleware.ErrResolutionCapacity) {
 				// RFC 9520 keys by question tuple: exhausting one NS
 				// hostname must not prevent trying the delegation's other
-				// hostnames.
+				// hostnames. The same holds for an address lookup shed at
+				// this resolver's own capacity ceiling: if it leaves the
+				// delegation without a server, the terminal cause is that
+				// request-local refusal, not an unreachable zone.
 				lastAttemptLimit = err
 				zlog.Debug("Lookup NS ipv4 address reached attempt limit", "query", dnsutil.FormatQuestion(q), "ns", name)
 				continue
@@ -3587,6 +3593,7 @@ func (r *Resolver) recordResolutionZoneFailure(ctx context.Context, q dns.Questi
 		errors.Is(cause, context.DeadlineExceeded) ||
 		errors.Is(cause, middleware.ErrRecursionWorkLimit) ||
 		errors.Is(cause, middleware.ErrResolutionAttemptLimit) ||
+		errors.Is(cause, middleware.ErrResolutionCapacity) ||
 		errors.Is(cause, middleware.ErrMaxRecursion) {
 		return
 	}
